@@ -700,5 +700,130 @@ func GridCases() []Case {
 		w += "b"
 	}
 	out = append(out, Case{Proto: "smpp", Coding: 99, Ref: 7, Text: vk.Hex([]byte(w)), Note: "152 x a + [ + 152 x b"})
+	out = append(out, unitClassCases()...)
+	out = append(out, exactLimitCases()...)
+	return out
+}
+
+// unitClassCases: one character of EVERY code-unit class of the multi-octet codings at the first part
+// boundary - UCS-2: every high octet 0x00..0xFF (surrogates as pairs), GB18030: every lead octet 0x81..0xFE
+// with a low (0x40..0x7E) and a high (0x80..0xFE) trail octet and the four-octet ranges - at the offsets
+// where it ends a part, straddles the boundary, and opens the next part. A cut rule that classifies units
+// by a mask or a range is exercised on both sides of every class boundary.
+func unitClassCases() []Case {
+	var out []Case
+	add := func(proto string, coding int, k ref.TextKind, r rune, note string) {
+		mu, _, err := ref.Units(k, string(r))
+		if err != nil {
+			return
+		}
+		_, per := k.Limits()
+		w := len(mu)
+		fw := 1
+		if k == ref.KUCS2 {
+			fw = 2
+		}
+		for d := -w; d <= 0; d += fw {
+			pos := per + d
+			var rs []rune
+			for i := 0; i < pos/fw; i++ {
+				rs = append(rs, 'a')
+			}
+			rs = append(rs, r)
+			for u := pos + w; u < per+per/2; u += fw {
+				rs = append(rs, 'b')
+			}
+			out = append(out, Case{Proto: proto, Coding: coding, Ref: byte(d + 16), Text: vk.Hex([]byte(string(rs))),
+				Note: fmt.Sprintf("unit class %s U+%04X offset=%d", note, r, d)})
+			// and right after an astral / four-octet character that ends exactly at the boundary
+			if d == 0 {
+				am, _, aerr := ref.Units(k, string(rune(0x1F336)))
+				if aerr == nil && len(am) <= pos {
+					rs2 := []rune{}
+					for i := 0; i < (pos-len(am))/fw; i++ {
+						rs2 = append(rs2, 'a')
+					}
+					rs2 = append(rs2, 0x1F336, r)
+					for u := pos + w; u < per+per/2; u += fw {
+						rs2 = append(rs2, 'b')
+					}
+					out = append(out, Case{Proto: proto, Coding: coding, Ref: 99, Text: vk.Hex([]byte(string(rs2))),
+						Note: fmt.Sprintf("unit class %s U+%04X right after U+1F336 ending at the boundary", note, r)})
+				}
+			}
+		}
+	}
+	for h := 0; h < 256; h++ {
+		if h >= 0xD8 && h <= 0xDF {
+			continue
+		}
+		r := rune(h<<8 | 0x41)
+		if h == 0 {
+			r = 'A'
+		}
+		add("smpp", 8, ref.KUCS2, r, "UCS-2 high octet")
+		if h%3 == 0 {
+			add("cmpp", 8, ref.KUCS2, r, "UCS-2 high octet")
+		}
+		if h%3 == 1 {
+			add("cmpp", 9, ref.KUCS2, r, "UCS-2 high octet")
+		}
+	}
+	for lead := 0x81; lead <= 0xFE; lead++ {
+		for _, trail := range []byte{0x40, 0x7E, 0x80, 0xA1, 0xFE} {
+			if r, ok := ref.GB18030Rune([]byte{byte(lead), trail}); ok {
+				add("cmpp", 15, ref.KGB18030, r, fmt.Sprintf("GB18030 %02X%02X", lead, trail))
+			}
+		}
+	}
+	for _, b := range [][]byte{{0x81, 0x30, 0x81, 0x30}, {0x81, 0x39, 0xFE, 0x39}, {0x82, 0x35, 0x8F, 0x33}, {0x84, 0x31, 0xA4, 0x39}, {0x90, 0x30, 0x81, 0x30}, {0x95, 0x32, 0x82, 0x36}, {0xE3, 0x32, 0x9A, 0x35}} {
+		if r, ok := ref.GB18030Rune(b); ok {
+			add("cmpp", 15, ref.KGB18030, r, fmt.Sprintf("GB18030 %x", b))
+		}
+	}
+	return out
+}
+
+// exactLimitCases: contents whose NOMINAL size is exactly 255 parts (and one unit less) with one
+// multi-unit character straddling boundary 1, 128 or 254: keeping the character whole costs a 256th part,
+// so the message must be refused; one unit less fits into 255 parts.
+func exactLimitCases() []Case {
+	var out []Case
+	type pc struct {
+		proto  string
+		coding int
+		m      rune
+	}
+	for _, x := range []pc{{"smpp", 0, '['}, {"smpp", 99, '['}, {"smpp", 8, 0x1F600}, {"cmpp", 8, 0x1F600}, {"cmpp", 15, 0x4E2D}, {"cmpp", 15, 0x1F600}} {
+		k, _ := KindOf(x.proto, x.coding)
+		_, per := k.Limits()
+		mu, _, err := ref.Units(k, string(x.m))
+		if err != nil {
+			continue
+		}
+		w := len(mu)
+		fw := 1
+		if k == ref.KUCS2 {
+			fw = 2
+		}
+		for _, kk := range []int{1, 128, 254} {
+			for _, short := range []int{0, fw, w} {
+				pos := kk*per - fw // the character starts one unit before the boundary
+				if w <= fw {
+					continue
+				}
+				var rs []rune
+				for i := 0; i < pos/fw; i++ {
+					rs = append(rs, 'a')
+				}
+				rs = append(rs, x.m)
+				for u := pos + w; u < 255*per-short; u += fw {
+					rs = append(rs, 'b')
+				}
+				out = append(out, Case{Proto: x.proto, Coding: x.coding, Ref: byte(kk), Text: vk.Hex([]byte(string(rs))),
+					Note: fmt.Sprintf("nominally 255 parts minus %d units, U+%04X straddles boundary %d", short, x.m, kk)})
+			}
+		}
+	}
 	return out
 }
